@@ -232,4 +232,96 @@ func init() {
 			return res
 		},
 	})
+
+	// Source.ID / Source.Equals: name-keyed through the fold only (model: coq/Model/SourceEq.v)
+	Register(&Suite{
+		Name: "names.source",
+		Prop: []string{"C15"},
+		Fixed: func() []Case {
+			var out []Case
+			for b := 0; b < 256; b++ { // every byte against its fold image and against itself +32
+				n := "n" + string([]byte{byte(b)}) + "x"
+				out = append(out, Case{"0", n, "u", "h", "0", specFold(n), "u", "h"})
+				out = append(out, Case{"0", n, "u", "h", "0", "n" + string([]byte{byte(b + 32)}) + "x", "u", "h"})
+			}
+			out = append(out, Case{"1", "", "", "", "1", "", "", ""}, Case{"1", "", "", "", "0", "a", "", ""}, Case{"0", "a", "", "", "1", "", "", ""},
+				Case{"0", "Nick[a]^", "u", "h", "0", "nICK{A}~", "u", "h"}, Case{"0", "a", "U", "h", "0", "a", "u", "h"}, Case{"0", "a", "u", "H", "0", "a", "u", "h"})
+			return out
+		},
+		Exhaustive: "every byte value inside a name against its fold image and against byte+32",
+		Gen: func(r *rand.Rand) Case {
+			alpha := "abcXYZ[]\\^{}|~@`_09\xc3\xa9"
+			n1 := RandBytes(r, 1+r.Intn(10), alpha)
+			n2 := n1
+			switch r.Intn(4) {
+			case 0:
+				n2 = RandBytes(r, 1+r.Intn(10), alpha)
+			case 1, 2: // a random case variant of n1
+				b := []byte(n1)
+				for i := range b {
+					if r.Intn(2) == 0 {
+						switch {
+						case b[i] >= 'A' && b[i] <= '^':
+							b[i] += 32
+						case b[i] >= 'a' && b[i] <= '~':
+							b[i] -= 32
+						}
+					}
+				}
+				n2 = string(b)
+			}
+			i1, h1 := RandBytes(r, r.Intn(4), "uU~"), RandBytes(r, r.Intn(4), "hH.")
+			i2, h2 := i1, h1
+			if r.Intn(5) == 0 {
+				i2 = RandBytes(r, r.Intn(4), "uU~")
+			}
+			if r.Intn(5) == 0 {
+				h2 = RandBytes(r, r.Intn(4), "hH.")
+			}
+			nil1, nil2 := "0", "0"
+			if r.Intn(15) == 0 {
+				nil1 = "1"
+			}
+			if r.Intn(15) == 0 {
+				nil2 = "1"
+			}
+			return Case{nil1, n1, i1, h1, nil2, n2, i2, h2}
+		},
+		Run: func(c Case) Result {
+			if len(c) != 8 {
+				return Result{Obs: "?args", Sig: "trivial"}
+			}
+			mk := func(n, a, i, h string) *girc.Source {
+				if n == "1" {
+					return nil
+				}
+				return &girc.Source{Name: a, Ident: i, Host: h}
+			}
+			x, y := mk(c[0], c[1], c[2], c[3]), mk(c[4], c[5], c[6], c[7])
+			id := func(s *girc.Source) string {
+				if s == nil {
+					return "nil"
+				}
+				return Hex(s.ID())
+			}
+			eq := x.Equals(y)
+			res := Result{Obs: id(x) + " " + id(y) + " " + B(eq), Sig: "eq=" + B(eq)}
+			if x != nil && y != nil {
+				sameFold := specFold(c[1]) == specFold(c[5])
+				want := sameFold && c[2] == c[6] && c[3] == c[7]
+				if sameFold && c[1] != c[5] {
+					res.Sig += "/variant"
+				}
+				switch {
+				case sameFold != (x.ID() == y.ID()):
+					res.Oracle = "source-id: Source.ID differs for names with the same fold (or agrees for different folds)"
+				case eq != want:
+					res.Oracle = "source-equals: Source.Equals does not compare names through their fold"
+				case y.Equals(x) != eq:
+					res.Oracle = "source-equals-sym: Source.Equals is not symmetric"
+				}
+			}
+			return res
+		},
+	})
 }
